@@ -15,6 +15,7 @@ from ..ref import quat as rq
 PROP = "C12"
 LEVEL = "exploration"
 SHARDS = {"quick": 2, "thorough": 16}
+THOROUGH_DEPTH = 40      # thorough tier = this many times the base thorough budget (VERIF_DEPTH overrides)
 ROUTES = ["quaternion.slerp", "orientation.slerp", "QuaternionArray.slerp_nan", "QuaternionArray.remove_jumps", "orientation.q_correct"]
 PAIR_REGIONS = ["generic", "near", "antipodal", "orthogonal", "threshold", "sweep", "identical"]
 REGIONS = {"pair:" + r: 60 for r in PAIR_REGIONS}
@@ -70,7 +71,7 @@ def generate(rng, tier, shard, nshards):
         yield Case("pair", "pair:" + reg, p=p, q=q, t=t)
     # NaN runs: enumerate (N, start, length) and deal them round-robin to shards
     combos = [(N, a, L) for N in range(3, 11) for a in range(1, N - 1) for L in range(1, N - 1 - a + 1)]
-    reps = 1 if tier == "quick" else 4
+    reps = 1 if tier == "quick" else gens.reps(4, tier)
     k = 0
     for rep in range(reps):
         for (N, a, L) in combos:
